@@ -105,7 +105,7 @@ fn zvalue(b: &[u8]) -> &[u8] {
 // ---------------------------------------------------------------------------------------------------------------
 // models
 
-#[derive(Clone, Debug, Hash, Serialize, Deserialize)]
+#[derive(Clone, Debug, Default, Hash, Serialize, Deserialize)]
 struct Meta {
     title: Bytes,
     author: Bytes,
@@ -134,8 +134,18 @@ struct Cell {
 struct WCase {
     fmt: u8,
     meta: Meta,
-    height: u8,
+    height: u16,
     cells: Vec<Cell>,
+    /// what happened to the buffer before the save under test:
+    /// 0 = freshly built, record set once;
+    /// 1 = a document with the metadata `prev` was saved with SAUCE and loaded again, then edited to the state `meta` (size, ice mode, font 0, content; the
+    ///     loaded record is kept and only its texts / comment lines / LS / AR are updated, as an editor does);
+    /// 2 = `set_sauce(record of prev, resize = true)` on a new buffer, then the same edits.
+    /// The expectation never changes: what is loaded back is what the buffer says at save time.
+    #[serde(default)]
+    history: u8,
+    #[serde(default)]
+    prev: Option<Meta>,
 }
 
 /// content (not produced with SAUCE) + a SAUCE trailer described by the model, encoded by the reference encoder below
@@ -327,20 +337,69 @@ fn put_cells(buf: &mut Buffer, cells: &[Cell], width: i32, height: i32) {
     }
 }
 
-fn build(c: &WCase, with_sauce: bool) -> Buffer {
-    let (w, h) = (c.meta.width as i32, c.height as i32);
-    let mut buf = Buffer::new((w, h));
-    buf.ice_mode = if c.meta.ice { IceMode::Ice } else { IceMode::Blink };
-    if let Some(name) = font_name(&c.meta.font) {
-        let mut f = BitFont::default();
+fn set_font0(buf: &mut Buffer, font: &[u8]) {
+    let mut f = BitFont::default();
+    if let Some(name) = font_name(font) {
         f.name = name;
-        buf.set_font(0, f);
     }
-    put_cells(&mut buf, &c.cells, w, h);
-    if with_sauce {
-        buf.set_sauce(Some(sauce_of(&c.meta, h)), false);
+    buf.set_font(0, f);
+}
+
+fn fresh(m: &Meta, h: i32, cells: &[Cell]) -> Buffer {
+    let w = m.width as i32;
+    let mut buf = Buffer::new((w, h));
+    buf.ice_mode = if m.ice { IceMode::Ice } else { IceMode::Blink };
+    if !m.font.is_empty() {
+        set_font0(&mut buf, &m.font);
     }
+    put_cells(&mut buf, cells, w, h);
     buf
+}
+
+/// Err = the first save/load cycle of history 1 did not work (counted as discard; the cycle itself is the subject of history 0 cases)
+fn build(c: &WCase, with_sauce: bool) -> Result<Buffer, String> {
+    let (w, h) = (c.meta.width as i32, c.height as i32);
+    let prev = match (&c.prev, c.history) {
+        (Some(p), 1 | 2) if with_sauce => p,
+        _ => {
+            let mut buf = fresh(&c.meta, h, &c.cells);
+            if with_sauce {
+                buf.set_sauce(Some(sauce_of(&c.meta, h)), false);
+            }
+            return Ok(buf);
+        }
+    };
+    let mut buf = if c.history == 1 {
+        let mut first = fresh(prev, 1, &[]);
+        first.set_sauce(Some(sauce_of(prev, 1)), false);
+        let bytes = first.to_bytes(ext(c.fmt), &save_opts(true)).map_err(|e| format!("first cycle, save: {e}"))?;
+        Buffer::from_bytes(&file_name(c.fmt), false, &bytes).map_err(|e| format!("first cycle, load: {e}"))?
+    } else {
+        let mut b = Buffer::new((80, 25));
+        b.set_sauce(Some(sauce_of(prev, 25)), true);
+        b
+    };
+    if buf.layers.is_empty() {
+        return Err("first cycle left no layer".into());
+    }
+    // the edit session: size, ice mode, font 0 and content are replaced ...
+    buf.set_size((w, h));
+    buf.layers[0].set_size((w, h));
+    buf.layers[0].lines.clear();
+    buf.ice_mode = if c.meta.ice { IceMode::Ice } else { IceMode::Blink };
+    set_font0(&mut buf, &c.meta.font);
+    put_cells(&mut buf, &c.cells, w, h);
+    // ... and the record the buffer carries is brought up to date where only the record holds the value (its font_opt / use_ice stay as they were loaded)
+    let cur = sauce_of(&c.meta, h);
+    let mut rec = buf.get_sauce().clone().unwrap_or_default();
+    rec.title = cur.title;
+    rec.author = cur.author;
+    rec.group = cur.group;
+    rec.comments = cur.comments;
+    rec.use_letter_spacing = cur.use_letter_spacing;
+    rec.use_aspect_ratio = cur.use_aspect_ratio;
+    buf.set_sauce(Some(rec), false);
+    Ok(buf)
 }
 
 fn save_opts(sauce: bool) -> SaveOptions {
@@ -467,10 +526,63 @@ fn font() -> BoxedStrategy<Bytes> {
     .boxed()
 }
 
-const WIDTH_EDGES: [u16; 18] = [1, 2, 3, 79, 81, 159, 161, 254, 255, 256, 257, 509, 510, 511, 512, 513, 999, 1000];
+const WIDTH_EDGES: [u16; 22] = [1, 2, 3, 40, 79, 81, 132, 159, 161, 254, 255, 256, 257, 320, 509, 510, 511, 512, 513, 640, 999, 1000];
 
 fn width() -> BoxedStrategy<u16> {
-    prop_oneof![3 => Just(80u16), 1 => Just(160u16), 2 => 1u16..=1000, 2 => (0..WIDTH_EDGES.len()).prop_map(|i| WIDTH_EDGES[i])].boxed()
+    prop_oneof![3 => Just(80u16), 1 => Just(160u16), 2 => 1u16..=1000, 2 => (0..WIDTH_EDGES.len()).prop_map(|i| WIDTH_EDGES[i]), 1 => (0..GRID_W.len()).prop_map(|i| GRID_W[i])].boxed()
+}
+
+/// sizes that mean something elsewhere (text modes, pixel resolutions, limits)
+const GRID_W: [u16; 17] = [1, 2, 40, 79, 80, 81, 132, 160, 255, 256, 320, 511, 512, 640, 800, 999, 1000];
+const GRID_H: [u16; 15] = [1, 2, 24, 25, 26, 43, 50, 60, 100, 200, 350, 400, 480, 600, 1000];
+
+fn height() -> BoxedStrategy<u16> {
+    prop_oneof![6 => 1u16..=3, 3 => (0..GRID_H.len()).prop_map(|i| GRID_H[i]), 1 => 1u16..=1000].boxed()
+}
+
+/// writers that walk every cell of the document (cost ~ width x height); the stream writers only walk the rows that have content
+fn walks_all_cells(fmt: u8) -> bool {
+    matches!(fmt, BIN | XB | TND | ADF | IDF | ICY)
+}
+
+/// what the writer itself demands of a document (the writer refuses anything else), and cost limits of this check
+fn normalise(fmt: u8, meta: &mut Meta, height: &mut u16, tag: u8) {
+    match fmt {
+        ADF => {
+            meta.width = 80;
+            meta.ice = true;
+        }
+        IDF => {
+            meta.ice = true;
+            *height = (*height).min(200);
+        }
+        // the native format renders a PNG preview of the whole document: keep most of its documents narrow (cost), all widths stay possible
+        ICY => {
+            if meta.width > 120 && tag >= 24 {
+                meta.width = meta.width % 120 + 1;
+            }
+            *height = (*height).min(3);
+        }
+        _ => {}
+    }
+    if walks_all_cells(fmt) {
+        *height = (*height).min((24_000 / meta.width.max(1)).max(1));
+    }
+}
+
+fn prev_meta(fmt: u8) -> BoxedStrategy<Meta> {
+    let fnt = prop_oneof![1 => Just(Bytes(Vec::new())), 5 => font()];
+    ((field(35), field(20), field(20), vec(comment_line(), 0..=2)), (any::<bool>(), any::<bool>(), any::<bool>(), fnt, width(), any::<u8>()))
+        .prop_map(move |((title, author, group, comments), (ice, letter_spacing, aspect_ratio, font, width, tag))| {
+            let mut meta = Meta { title, author, group, comments, ice, letter_spacing, aspect_ratio, font, width };
+            let mut h = 1;
+            normalise(fmt, &mut meta, &mut h, tag);
+            if matches!(fmt, BIN | IDF) {
+                meta.width = meta.width.min(510);
+            }
+            meta
+        })
+        .boxed()
 }
 
 fn cells() -> BoxedStrategy<Vec<Cell>> {
@@ -482,21 +594,12 @@ fn wcase(fmt: u8, defaults: bool) -> BoxedStrategy<WCase> {
     let wd = if defaults { prop_oneof![6 => Just(default_width(fmt) as u16), 1 => width()].boxed() } else { width() };
     let ice = if defaults { prop_oneof![6 => Just(false), 1 => any::<bool>()].boxed() } else { any::<bool>().boxed() };
     let fnt = if defaults { prop_oneof![6 => Just(Bytes(Vec::new())), 1 => font()].boxed() } else { font() };
-    ((field(35), field(20), field(20), comment_lines()), (ice, any::<bool>(), any::<bool>(), fnt, wd), (1u8..=3, cells(), any::<u8>()))
-        .prop_map(move |((title, author, group, comments), (ice, letter_spacing, aspect_ratio, font, width), (height, cells, tag))| {
+    let history = prop_oneof![5 => Just(0u8), 2 => Just(1u8), 3 => Just(2u8)];
+    ((field(35), field(20), field(20), comment_lines()), (ice, any::<bool>(), any::<bool>(), fnt, wd), (height(), cells(), any::<u8>()), (history, prev_meta(fmt)))
+        .prop_map(move |((title, author, group, comments), (ice, letter_spacing, aspect_ratio, font, width), (mut height, cells, tag), (history, prev))| {
             let mut meta = Meta { title, author, group, comments, ice, letter_spacing, aspect_ratio, font, width };
-            // what the writer itself demands of a document (the writer refuses anything else)
-            match fmt {
-                ADF => {
-                    meta.width = 80;
-                    meta.ice = true;
-                }
-                IDF => meta.ice = true,
-                // the native format renders a PNG preview of the whole document: keep most of its documents narrow (cost), all widths stay possible
-                ICY if meta.width > 120 && tag >= 24 => meta.width = meta.width % 120 + 1,
-                _ => {}
-            }
-            WCase { fmt, meta, height, cells }
+            normalise(fmt, &mut meta, &mut height, tag);
+            WCase { fmt, meta, height, cells, history, prev: if history == 0 { None } else { Some(prev) } }
         })
         .boxed()
 }
@@ -663,7 +766,7 @@ fn meta_nontrivial(title: &[u8], author: &[u8], group: &[u8], comments: &[Bytes]
 
 fn wclass(c: &WCase) -> String {
     let n = c.meta.comments.len();
-    format!("{}|{}", ext(c.fmt), if n == 0 { "c=0" } else if n < 250 { "c<250" } else { "c>=250" })
+    format!("{}|{}|{}", ext(c.fmt), if n == 0 { "c=0" } else if n < 250 { "c<250" } else { "c>=250" }, ["fresh", "reloaded", "set_sauce+edit"][c.history.min(2) as usize])
 }
 
 // ---------------------------------------------------------------------------------------------------------------
@@ -685,9 +788,38 @@ fn legit_refusal(c: &WCase, err: &str) -> bool {
     (c.fmt == BIN || c.fmt == IDF) && c.meta.width as i32 / 2 > 255 && err.contains("bin file width limit")
 }
 
+/// A failure of a case with history is keyed like the same failure of a fresh buffer when the fresh buffer fails as well;
+/// only when the history is needed the key gets the input class `after_history`.
+fn with_history_class(c: &WCase, check: fn(&WCase) -> Verdict) -> Verdict {
+    let v = check(c);
+    if c.history == 0 {
+        return v;
+    }
+    if let Verdict::Fail { key, msg } = &v {
+        let fresh = WCase { history: 0, prev: None, ..c.clone() };
+        if matches!(check(&fresh), Verdict::Fail { key: k, .. } if k == *key) {
+            return v;
+        }
+        let how = if c.history == 1 { "buffer was loaded from a file saved with other metadata, then edited" } else { "set_sauce(older record, resize) on a new buffer, then edited" };
+        return Verdict::fail(format!("{key}|after_history"), format!("{msg} [{how}; the same document built fresh passes]"));
+    }
+    v
+}
+
 fn check_meta(c: &WCase) -> Verdict {
+    with_history_class(c, check_meta_once)
+}
+
+fn check_writer_split(c: &WCase) -> Verdict {
+    with_history_class(c, check_writer_split_once)
+}
+
+fn check_meta_once(c: &WCase) -> Verdict {
     let fmt = ext(c.fmt);
-    let buf = build(c, true);
+    let buf = match build(c, true) {
+        Ok(b) => b,
+        Err(e) => return Verdict::discard(e),
+    };
     let bytes = match buf.to_bytes(fmt, &save_opts(true)) {
         Ok(b) => b,
         Err(e) => {
@@ -805,10 +937,13 @@ fn check_extract_len(file: &[u8], n_comments: usize, want: usize) -> Result<(), 
     }
 }
 
-fn check_writer_split(c: &WCase) -> Verdict {
+fn check_writer_split_once(c: &WCase) -> Verdict {
     let fmt = ext(c.fmt);
     let m = &c.meta;
-    let buf = build(c, true);
+    let buf = match build(c, true) {
+        Ok(b) => b,
+        Err(e) => return Verdict::discard(e),
+    };
     let with = match buf.to_bytes(fmt, &save_opts(true)) {
         Ok(b) => b,
         Err(e) => {
@@ -820,7 +955,17 @@ fn check_writer_split(c: &WCase) -> Verdict {
         }
     };
     // the native format keeps SAUCE in a chunk of its own: only the differential clause applies
-    let without = if c.fmt == ICY { build(c, false).to_bytes(fmt, &save_opts(false)) } else { buf.to_bytes(fmt, &save_opts(false)) };
+    let without = if c.fmt == ICY {
+        match build(c, true) {
+            Ok(mut b) => {
+                b.set_sauce(None, false);
+                b.to_bytes(fmt, &save_opts(false))
+            }
+            Err(e) => return Verdict::discard(e),
+        }
+    } else {
+        buf.to_bytes(fmt, &save_opts(false))
+    };
     let without = match without {
         Ok(b) => b,
         Err(e) => return Verdict::fail(format!("save.error.nosauce|fmt={fmt}"), e.to_string()),
@@ -879,8 +1024,11 @@ fn check_writer_split(c: &WCase) -> Verdict {
         if !carries && (p.tflags != 0 || p.tinfos.iter().any(|b| *b != 0)) {
             return Verdict::fail(format!("record.flags.invented|fmt={fmt}"), format!("variant has neither flags nor font name, TFlags {:#04x} TInfoS \"{}\"", p.tflags, escape(&p.tinfos)));
         }
-        if carries && !m.font.is_empty() && zvalue(&p.tinfos) != strip(&m.font) {
-            return Verdict::fail(format!("record.font|fmt={fmt}"), format!("TInfoS \"{}\", font name \"{}\"", escape(&p.tinfos), escape(&m.font)));
+        if carries {
+            let want_font = if m.font.is_empty() { buf.get_font(0).and_then(|f| from_uni(&f.name)).unwrap_or_default() } else { m.font.0.clone() };
+            if zvalue(&p.tinfos) != strip(&want_font) {
+                return Verdict::fail(format!("record.font|fmt={fmt}"), format!("TInfoS \"{}\", name of font 0 \"{}\"", escape(&p.tinfos), escape(&want_font)));
+            }
         }
         // (c) the engine's splitter against the document's arithmetic
         if let Err(v) = check_extract_len(&with, n, ref_trailer_len(n)) {
@@ -1075,6 +1223,21 @@ fn check_degenerate(c: &DCase) -> Verdict {
 }
 
 // ---------------------------------------------------------------------------------------------------------------
+// exhaustive grid of "meaningful" sizes for the writers whose loaded width comes from the record
+
+const GRID_FMTS: [u8; 6] = [ANS, ASC, PCB, AVT, TND, BIN];
+
+fn grid_case(i: u64) -> WCase {
+    let i = i as usize;
+    let h = GRID_H[i % GRID_H.len()];
+    let w = GRID_W[(i / GRID_H.len()) % GRID_W.len()];
+    let fmt = GRID_FMTS[i / (GRID_H.len() * GRID_W.len())];
+    let meta = Meta { title: Bytes(b"size grid".to_vec()), comments: vec![Bytes(format!("{w}x{h}").into_bytes())], width: w, ..Meta::default() };
+    let cells = vec![Cell { x: 0, y: 0, ch: b'A', fg: 7, bg: 0 }, Cell { x: u16::MAX, y: 0, ch: b'Z', fg: 7, bg: 0 }];
+    WCase { fmt, meta, height: h, cells, history: 0, prev: None }
+}
+
+// ---------------------------------------------------------------------------------------------------------------
 
 fn main() {
     // the harness builds SauceStrings through the engine's only constructor (String -> CP437); that needs the table to be injective
@@ -1082,12 +1245,13 @@ fn main() {
 
     let mut eng = Engine::new("C11");
     eng.rule(
-        "meta_roundtrip/writer_split: documents of 1..=3 rows, width from {80,160,1..=1000,edges}, title/author/group = CP437 bytes 1..=255 of length 0..=35/20/20 (forced maximal and \
+        "meta_roundtrip/writer_split: documents of height {1..=3 | grid heights 1,2,24,25,26,43,50,60,100,200,350,400,480,600,1000 | 1..=1000} (capped to 24000 cells for writers that walk every cell, 200 rows for idf, 3 for icy), width from {80,160,1..=1000,edges,grid widths}, \
+         buffer history {fresh | loaded from a file saved with other metadata, then edited | set_sauce(older record, resize) then edited: size, ice mode, font 0, content replaced, record texts/LS/AR updated, record font_opt/use_ice left stale}, title/author/group = CP437 bytes 1..=255 of length 0..=35/20/20 (forced maximal and \
          maximal-1 lengths) plus trailing blanks/NULs, 0..=255 comment lines (forced 250..=255; blocks longer than 3 lines repeat a generated pattern of 1..=4 lines) of 0..=64 bytes without interior NUL, ice/letter-spacing/aspect-ratio, font 0 renamed to a SAUCE \
          font name or arbitrary <=22 CP437 bytes, saved by each SAUCE writer (ans asc avt pcb bin xb tnd adf idf icy) and loaded with Buffer::from_bytes; writer_split is biased to the loader defaults \
          so that the differential clause applies. reader_split: generated ans/asc/pcb/avt/bin content (text, line breaks, colour codes, high bytes) ending in SAUCE, COMNT, EOF, SAUCE00, whole fake records, \
          fake comment blocks, whole fake trailers, or writer-made xb/tnd/adf/idf content, followed by a trailer from the harness' own SAUCE rev.5 encoder (default width / 0 / >1000, ice off, font empty or IBM VGA, \
-         any TInfo2, any LS/AR). degenerate: all comment counts 0..=255 x content of 0,1,2 bytes x {ans,bin}, and the files that are nothing but [COMNT]+record without EOF. \
+         any TInfo2, any LS/AR). size_grid: exhaustive widths {1,2,40,79,80,81,132,160,255,256,320,511,512,640,800,999,1000} x the grid heights x {ans,asc,pcb,avt,tnd,bin} through the metadata round trip. degenerate: all comment counts 0..=255 x content of 0,1,2 bytes x {ans,bin}, and the files that are nothing but [COMNT]+record without EOF. \
          Non-trivial: >= 1 comment line, or a title/author/group/comment at its maximal length, or (reader_split) marker-like content tail; degenerate: >= 1 comment or empty content. Distinct by case hash.",
     );
     eng.assume("the SAUCE rev. 5 document in /repo/doc is the reference for record layout, trailer arithmetic and for what each DataType/FileType variant carries (ANSiFlags and FontName: ASCII, ANSi, ANSiMation, BinaryText; neither: PCBoard, Avatar, TundraDraw, XBin)");
@@ -1100,5 +1264,6 @@ fn main() {
     eng.generated_with_class(PartCfg::new("writer_split", 100_000, 1_600_000), || wcases(true), check_writer_split, |c: &WCase| format!("fmt={}", ext(c.fmt)));
     eng.generated_with_class(PartCfg::new("reader_split", 160_000, 2_400_000), rcases, check_reader_split, |c: &RCase| format!("fmt={}", ext(c.fmt)));
     eng.enumerated(PartCfg::new("degenerate", 0, 0).exhaustive(true), 2048, dcase, check_degenerate);
+    eng.enumerated(PartCfg::new("size_grid", 0, 0).exhaustive(true), (GRID_FMTS.len() * GRID_W.len() * GRID_H.len()) as u64, grid_case, check_meta);
     eng.run();
 }
